@@ -111,6 +111,9 @@ func (x *Exec) evLockOp(st *State, call *ast.CallExpr) ([]Val, bool) {
 		return nil, false
 	}
 	rt := recv.Type().String()
+	if rt == "*sync.Map" {
+		return x.evSyncMapOp(st, call, selx, fn)
+	}
 	if rt != "*sync.Mutex" && rt != "*sync.RWMutex" {
 		return nil, false
 	}
@@ -126,4 +129,34 @@ func (x *Exec) evLockOp(st *State, call *ast.CallExpr) ([]Val, bool) {
 	}
 	x.lockEvent(st, text, name, call)
 	return nil, true
+}
+
+// evSyncMapOp: sync.Map as the set of present keys
+func (x *Exec) evSyncMapOp(st *State, call *ast.CallExpr, selx *ast.SelectorExpr, fn *types.Func) ([]Val, bool) {
+	anyT := types.NewInterfaceType(nil, nil)
+	switch fn.Name() {
+	case "Load", "Store", "Delete":
+	default:
+		return nil, false
+	}
+	lv := x.lvOrTemp(st, selx.X)
+	m := x.load(st, lv)
+	k := x.convertTo(st, x.ev(st, call.Args[0]), anyT)
+	switch fn.Name() {
+	case "Load":
+		v := x.havocVal(st, "loaded", anyT)
+		return []Val{v, {T: fmt.Sprintf("(select %s %s)", m.T, k.T), Sort: "Bool", GoT: types.Typ[types.Bool]}}, true
+	case "Store":
+		x.ev(st, call.Args[1])
+		nm := m
+		nm.T = fmt.Sprintf("(store %s %s true)", m.T, k.T)
+		x.storeLV(st, lv, nm)
+		return nil, true
+	case "Delete":
+		nm := m
+		nm.T = fmt.Sprintf("(store %s %s false)", m.T, k.T)
+		x.storeLV(st, lv, nm)
+		return nil, true
+	}
+	return nil, false
 }
